@@ -34,6 +34,9 @@ def child_makers():
     makers = {
         "LiteralFloat+": lambda: L.LiteralFloat(2.5),
         "LiteralFloat-": lambda: L.LiteralFloat(-2.5),
+        "LiteralComplex": lambda: L.LiteralFloat(1.5 - 2.25j),
+        "LiteralComplexIm": lambda: L.LiteralFloat(2.5j),
+        "LiteralComplexNegIm": lambda: L.LiteralFloat(-0.5j),
         "LiteralInt+": lambda: L.LiteralInt(3),
         "LiteralInt-": lambda: L.LiteralInt(-3),
         "Symbol": lambda: leaf("s"),
@@ -106,7 +109,7 @@ def triples():
 # --------------------------------------------------------------------------- canonical form
 def lit(v):
     if isinstance(v, complex):
-        return ("clit", float(v.real), float(v.imag))
+        return ("clit", float(v.real) + 0.0, float(v.imag) + 0.0)
     return ("lit", float(v))
 
 
@@ -124,6 +127,8 @@ def canon_l(e):
         c = canon_l(e.arg)
         if c[0] == "lit":
             return ("lit", -c[1])
+        if c[0] == "clit":
+            return ("clit", -c[1], -c[2])
         return ("neg", c)
     if isinstance(e, L.Not):
         return ("not", canon_l(e.arg))
@@ -176,6 +181,8 @@ def canon_c(n):
     if isinstance(n, c_ast.UnaryOp):
         c = canon_c(n.expr)
         if n.op == "-":
+            if c[0] == "clit":
+                return ("clit", -c[1], -c[2])
             return ("lit", -c[1]) if c[0] == "lit" else ("neg", c)
         if n.op == "!":
             return ("not", c)
@@ -227,12 +234,18 @@ def canon_py(n):
     if isinstance(n, pyast.UnaryOp):
         c = canon_py(n.operand)
         if isinstance(n.op, pyast.USub):
+            if c[0] == "clit":
+                return ("clit", -c[1], -c[2])
             return ("lit", -c[1]) if c[0] == "lit" else ("neg", c)
         if isinstance(n.op, pyast.Not):
             return ("not", c)
         return ("unary", c)
     if isinstance(n, pyast.BinOp):
-        return (_PYBIN[type(n.op)], canon_py(n.left), canon_py(n.right))
+        l, r = canon_py(n.left), canon_py(n.right)
+        op = _PYBIN[type(n.op)]
+        if op in "+-" and l[0] == "lit" and r[0] == "clit" and r[1] == 0.0:
+            return ("clit", l[1], r[2] if op == "+" else -r[2])
+        return (op, l, r)
     if isinstance(n, pyast.BoolOp):
         op = "&&" if isinstance(n.op, pyast.And) else "||"
         cs = [canon_py(v) for v in n.values]
